@@ -737,3 +737,59 @@ _e1("C18.elem_add", A + "FiniteBifieldElement.__add__", _e1_cfgs)
 _e1("C18.elem_mul", A + "FiniteBifieldElement.__mul__", _e1_cfgs)
 _e1("C18.elem_pow", A + "FiniteBifieldElement.__pow__", _e1_cfgs)
 _e1("C18.elem_inverse", A + "FiniteBifieldElement.inverse", _e1_cfgs)
+
+
+# ---- trace / conjugates: the m-1 squarings are unrolled (m is concrete per configuration); specification by powers 2^i
+def _frob(a, i):
+    """a^(2^i) as a specification term"""
+    return a.self.value if i == 0 else fpow(_Mv(a), a.self.value, 2**i)
+
+
+def _squarings(cfg):
+    m = _m(cfg)
+    return tuple((2**i, 2**i) for i in range(0, max(m - 1, 0)))
+
+
+def _sq_extra(cfg, mod):
+    return _field_extra(fpow_add=_squarings(cfg))(cfg, mod) + [
+        ("fpow(a,1) = a [instance of fpow.succ/fpow.zero/fmul.unit]", (lambda av, M: z3.ForAll([av], z3.Implies(z3.And(av >= 0, av < 2 ** _m(cfg)), T._F["fpow"](z3.IntVal(M), av, z3.IntVal(1)) == av)))(z3.Int("pow1!a"), mod.FiniteBifield(_m(cfg)).modulus.value)),
+    ]
+
+
+def _trace_ensures(a, res, w):
+    m = a.self.field.m
+    acc = _frob(a, 0)
+    for i in range(1, m):
+        acc = xor(acc, _frob(a, i))
+    return {"parity_of_conjugate_sum": res == acc % 2, "is_bit": AND(res >= 0, res <= 1)}
+
+
+register(Contract(
+    key=A + "FiniteBifieldElement.trace", types={"self": FE}, returns="int",
+    requires=lambda a: _inrange(a.self.value, _size(a)),
+    ensures=_trace_ensures,
+    theory=("xor", "pmul", "deg", "pmod", "fmul", "fpow"), extra=_sq_extra,
+    small=_elems("self", cap=8), small_desc="all elements (values < 2^min(m,8))",
+))
+
+
+def _conj_ensures(a, res, w):
+    m = a.self.field.m
+    n = len(res)
+    d = {f"elem{i}_is_a_pow_2^{i}": res[i].value == _frob(a, i) for i in range(n)}
+    d["length_at_most_m"] = 1 <= n <= m
+    d["stops_only_at_orbit_end"] = OR(n == m, _frob(a, n) == a.self.value) if n < m else True
+    d["no_repeat_before_end"] = AND(*[NOT(_frob(a, i) == a.self.value) for i in range(1, n)]) if n > 1 else True
+    return d
+
+
+register(Contract(
+    key=A + "FiniteBifieldElement.conjugates", types={"self": FE}, returns="list",
+    requires=lambda a: _inrange(a.self.value, _size(a)),
+    ensures=_conj_ensures,
+    theory=("xor", "pmul", "deg", "pmod", "fmul", "fpow"), extra=_sq_extra,
+    small=_elems("self", cap=8), small_desc="all elements (values < 2^min(m,8))",
+))
+
+_e1("C18.elem_trace", A + "FiniteBifieldElement.trace", _e1_cfgs)
+_e1("C18.elem_conjugates", A + "FiniteBifieldElement.conjugates", _e1_cfgs)
